@@ -15,6 +15,9 @@ func Minimise(p *Plan, t *Trace, findings []Finding) *Trace {
 		if c.Crash != nil {
 			c.Crash.All = false
 		}
+		if c.Sched != nil {
+			c.Sched.Picks = nil // the schedule is re-drawn from PickSeed for every candidate
+		}
 		var v *Violation
 		pv := safeCall(func() { v = Execute(p, c, st) })
 		if pv != nil || v == nil {
